@@ -27,7 +27,7 @@ def smask_names(m):
 # generators
 
 
-def gen_dataset(rng, name, kind, n_dates=None, weird=False, dyadic=True):
+def gen_dataset(rng, name, kind, n_dates=None, weird=False, dyadic=True, allow_raw=True):
     syms = exch.SYMS if kind == "uist" else [str(a) for a in exch.ASSETS]
     n = n_dates if n_dates is not None else rng.choice([1, 1, 2, 2, 3, 4, 5, 8])
     date = rng.choice([100, 1000, 1633021200])
@@ -70,6 +70,17 @@ def gen_dataset(rng, name, kind, n_dates=None, weird=False, dyadic=True):
         quotes.append(q)
         if rng.random() < 0.5:
             quotes.append([f2b(95.0), f2b(96.0), quotes[0][2] - 5, syms[0]])
+    dates = []
+    for q in quotes:
+        if q[2] not in dates:
+            dates.append(q[2])
+    if allow_raw and not weird and style == "date_major" and len(dates) >= 2 and rng.random() < 0.3:
+        # the dataset arrives as JSON instead of through add_quote (Penelope derives Deserialize): date list and rows
+        # are separate fields, and one listed date has no row (a holiday in the feed). The clock still has to walk
+        # every listed date; on that date nothing is matched and nothing is shown.
+        hole = rng.choice(dates)
+        rows = [[d, [q for q in quotes if q[2] == d]] for d in dates if d != hole]
+        return dict(name=name, quotes=[], style="json_with_hole", raw=dict(dates=dates, rows=rows))
     return dict(name=name, quotes=quotes, style=style)
 
 
@@ -147,7 +158,7 @@ def g_pstep(d_sc, dump):
 
 def dataset_terms(sc, tr):
     dumps = {d["name"]: d["dump"] for d in tr["datasets"]}
-    return [g_pstep(d, dumps[d["name"]]) for d in sc["datasets"] if d["name"] in dumps]
+    return [g_pstep(d, dumps[d["name"]]) for d in sc["datasets"] if d["name"] in dumps and "raw" not in d]
 
 
 def g_app(kind, snap, ds_name):
@@ -332,6 +343,8 @@ def script_dates(sc, name):
     means to the person who loaded it), or None"""
     for d in sc.get("datasets", []):
         if d["name"] == name:
+            if "raw" in d:
+                return list(d["raw"]["dates"])
             out = []
             for q in d["quotes"]:
                 if q[2] not in out:
@@ -380,6 +393,9 @@ def oracle_c07(sc, steps, tr):
         if dump["dates"] != dates:
             return dict(step=k, what="dataset %s was loaded with the distinct dates %s but the backtest is made to walk %s"
                         % (b_pre["dataset"], dates, dump["dates"]))
+        if o == "tick" and not st["some"]:
+            return dict(step=k, what="tick on the existing backtest %d (dataset %s, clock date %s) was refused"
+                        % (bid, b_pre["dataset"], b_pre["date"]))
         if o == "tick" and st["some"]:
             kt += 1
             ticks[bid] = kt
@@ -596,7 +612,7 @@ IMPORTS_CLIENT = ("From Alator Require Import Model.Num Model.Quirks Model.Excha
 
 def gen_client_scenario(rng, n_ops=None, big_batches=False):
     """one TestClient::single over one dataset; further backtests through init; every endpoint of the trait"""
-    ds = gen_dataset(rng, "A", "uist", weird=rng.random() < 0.2)
+    ds = gen_dataset(rng, "A", "uist", weird=rng.random() < 0.2, allow_raw=False)
     ids = [0]
     last = 1
     ops = []
@@ -860,7 +876,7 @@ def gen_jclient_scenario(rng, n_ops=None, big_batch=False):
     naming backtests that do not exist"""
     single = rng.random() < 0.5
     names = ["A"] if single else ["A", "B", "C"][:rng.choice([1, 2, 3])]
-    dss = [gen_dataset(rng, nm, "jura", n_dates=rng.choice([1, 2, 3, 4, 5, 8, 12]), weird=rng.random() < 0.15) for nm in names]
+    dss = [gen_dataset(rng, nm, "jura", n_dates=rng.choice([1, 2, 3, 4, 5, 8, 12]), weird=rng.random() < 0.15, allow_raw=False) for nm in names]
     loaded = {d["name"]: script_rows(d) for d in dss}
     ids, last = ([0], 1) if single else ([], 0)
     ds_of = {0: "A"} if single else {}
